@@ -64,6 +64,30 @@ func main() {
 		def.fn(r)
 		r.Pool.Close()
 		os.Exit(r.Finish())
+	case "trace":
+		// debug: h trace '<famJob json>' prints every step's observation
+		var j famJob
+		if err := json.Unmarshal([]byte(os.Args[2]), &j); err != nil {
+			fmt.Fprintln(os.Stderr, err)
+			os.Exit(2)
+		}
+		res := &WRes{}
+		f := NewFam(j.Spec, res)
+		for _, op := range j.Hist {
+			cls := f.Apply(op)
+			f.Sweep(op)
+			fmt.Println(op.String(), "=>", cls, "|", f.lastObs)
+			for _, t := range f.M.Toks {
+				act, _ := f.W.Active(t.Val)
+				fmt.Printf("    %s g%d gen%d %s active=%v\n", t.Name, t.Grant, t.Gen, t.Status, act)
+			}
+		}
+		for _, v := range res.Viol {
+			fmt.Println("VIOL", v.Fingerprint, v.What)
+		}
+		for _, c := range f.W.Store.Log {
+			_ = c
+		}
 	case "replay":
 		b, err := os.ReadFile(os.Args[2])
 		if err != nil {
